@@ -1,7 +1,7 @@
 (* RotationFacts.v — facts about Model/Rotation.v: the 24 basic rotation ids round-trip, ids are small and
-   non-zero, the refutation witness for the pinned `approx_unit_or_zero` (0.5*I is given id 2 and comes
-   back as the identity), and what the repaired test guarantees (a matrix is given an id only if every
-   entry is within f32::EPSILON of the corresponding entry of that basic rotation). *)
+   non-zero, a matrix is given an id only if every entry is within f32::EPSILON of the corresponding entry of
+   that basic rotation, and the refutation witness for `approx_unit_or_zero` as it was before /repo commit
+   66cfd56a (0.5*I was given id 2 and came back as the identity). *)
 From RbxVerif Require Import Base Bytes Value Rotation.
 From Coq Require Import Lia.
 Open Scope N_scope.
@@ -87,30 +87,34 @@ Lemma to_basic_some m id :
   to_basic_rotation_id m = Some id -> exists b, from_basic_rotation_id id = Some b /\ id <> 0 /\ id < 256.
 Proof. apply to_basic_with_some. Qed.
 
-(* ---------------------------------------------------------------- the pinned test: refutation witness *)
+(* ---------------------------------------------------------------- the test before the repair: refutation witness *)
 Definition F32_HALF : f32 := 0x3F000000.
 Definition half_identity : mat3 :=
   m9 F32_HALF F32_ZERO F32_ZERO  F32_ZERO F32_HALF F32_ZERO  F32_ZERO F32_ZERO F32_HALF.
 
-(* 0.5*I is given the rotation id of the identity and is therefore read back as I: the property
-   "a rotation is replaced by a basic rotation only if it is (within f32::EPSILON) that rotation" fails *)
+(* Before commit 66cfd56a, 0.5*I was given the rotation id of the identity and was therefore read back as I: the
+   property "a rotation is replaced by a basic rotation only if it is (within f32::EPSILON) that rotation" failed.
+   The current code refuses an id to 0.5*I. *)
 Theorem snap_scaled_refuted :
-  to_basic_rotation_id half_identity = Some 2 /\
+  to_basic_rotation_id_with approx_unit_or_zero_pinned half_identity = Some 2 /\
   from_basic_rotation_id 2 = Some mat3_identity /\
   mat3_identity <> half_identity.
 Proof. split; [vm_compute; reflexivity|]. split; [vm_compute; reflexivity|]. discriminate. Qed.
 
-(* more generally every |v| <= 1 + ulp is taken for a unit by the pinned test *)
+Theorem snap_scaled_repaired : to_basic_rotation_id half_identity = None.
+Proof. vm_compute. reflexivity. Qed.
+
+(* more generally every |v| <= 1 + ulp was taken for a unit by the old test *)
 Lemma pinned_accepts_below_one v :
   f32_is_nan v = false -> F32_EPSILON_BITS < f32_abs_bits v -> f32_abs_bits v <= F32_ONE_PLUS_ULP ->
-  approx_unit_or_zero v = Some (if f32_sign v then (-1)%Z else 1%Z).
+  approx_unit_or_zero_pinned v = Some (if f32_sign v then (-1)%Z else 1%Z).
 Proof.
-  intros Hn H1 H2. unfold approx_unit_or_zero. rewrite Hn.
+  intros Hn H1 H2. unfold approx_unit_or_zero_pinned. rewrite Hn.
   destruct (N.leb_spec (f32_abs_bits v) F32_EPSILON_BITS); [lia|].
   destruct (N.leb_spec (f32_abs_bits v) F32_ONE_PLUS_ULP); [reflexivity|lia].
 Qed.
 
-(* ---------------------------------------------------------------- the repaired test *)
+(* ---------------------------------------------------------------- the current test *)
 (* x is within f32::EPSILON of the exact entry e (e one of 0.0, 1.0, -1.0), stated on bit patterns *)
 Definition near_entry (x e : f32) : Prop :=
   f32_is_nan x = false /\
@@ -127,19 +131,19 @@ Definition axis_vec (k : N) : vec3 :=
   | 3 => mkV3 F32_NEG_ONE F32_ZERO F32_ZERO | 4 => mkV3 F32_ZERO F32_NEG_ONE F32_ZERO | _ => mkV3 F32_ZERO F32_ZERO F32_NEG_ONE
   end.
 
-Lemma fixed_zero x : approx_unit_or_zero_fixed x = Some 0%Z -> near_entry x F32_ZERO.
+Lemma fixed_zero x : approx_unit_or_zero x = Some 0%Z -> near_entry x F32_ZERO.
 Proof.
-  unfold approx_unit_or_zero_fixed, near_entry. destruct (f32_is_nan x); [discriminate|].
+  unfold approx_unit_or_zero, near_entry. destruct (f32_is_nan x); [discriminate|].
   destruct (N.leb_spec (f32_abs_bits x) F32_EPSILON_BITS) as [H|H].
   - intros _. split; [reflexivity|]. left. now split.
   - destruct (N.leb F32_ONE_MINUS_EPS (f32_abs_bits x) && N.leb (f32_abs_bits x) F32_ONE_PLUS_ULP); [|discriminate].
     destruct (f32_sign x); discriminate.
 Qed.
 
-Lemma fixed_unit x s : approx_unit_or_zero_fixed x = Some s -> s <> 0%Z ->
+Lemma fixed_unit x s : approx_unit_or_zero x = Some s -> s <> 0%Z ->
   (s = 1%Z /\ near_entry x F32_ONE) \/ (s = (-1)%Z /\ near_entry x F32_NEG_ONE).
 Proof.
-  unfold approx_unit_or_zero_fixed, near_entry. destruct (f32_is_nan x); [discriminate|].
+  unfold approx_unit_or_zero, near_entry. destruct (f32_is_nan x); [discriminate|].
   destruct (N.leb_spec (f32_abs_bits x) F32_EPSILON_BITS) as [H|H]; [intros [= <-]; easy|].
   destruct (N.leb_spec F32_ONE_MINUS_EPS (f32_abs_bits x)) as [H1|H1]; [|discriminate].
   destruct (N.leb_spec (f32_abs_bits x) F32_ONE_PLUS_ULP) as [H2|H2]; [|discriminate]. cbn [andb].
@@ -149,12 +153,12 @@ Proof.
 Qed.
 
 Lemma fixed_normal_id_near v k :
-  to_normal_id_with approx_unit_or_zero_fixed v = Some k -> k < 6 /\ near_vec v (axis_vec k).
+  to_normal_id_with approx_unit_or_zero v = Some k -> k < 6 /\ near_vec v (axis_vec k).
 Proof.
   unfold to_normal_id_with, near_vec.
-  destruct (approx_unit_or_zero_fixed (vx v)) as [x|] eqn:Hx; [|discriminate].
-  destruct (approx_unit_or_zero_fixed (vy v)) as [y|] eqn:Hy; [|destruct x; discriminate].
-  destruct (approx_unit_or_zero_fixed (vz v)) as [z|] eqn:Hz; [|destruct x, y; discriminate].
+  destruct (approx_unit_or_zero (vx v)) as [x|] eqn:Hx; [|discriminate].
+  destruct (approx_unit_or_zero (vy v)) as [y|] eqn:Hy; [|destruct x; discriminate].
+  destruct (approx_unit_or_zero (vz v)) as [z|] eqn:Hz; [|destruct x, y; discriminate].
   assert (Hu : forall p s, get_normal_id p s = Some k -> s <> 0%Z /\ ((s = 1%Z /\ k = p) \/ (s = (-1)%Z /\ k = p + 3))).
   { intros p s. unfold get_normal_id. destruct s as [|q|q]; [discriminate| |].
     - destruct q; try discriminate. intros [= <-]. split; [discriminate|]. now left.
@@ -196,8 +200,8 @@ Definition table_columns_b (id : N) : bool :=
   | None => true
   | Some b =>
     let t := transpose b in
-    match to_normal_id_with approx_unit_or_zero_fixed (mx t), to_normal_id_with approx_unit_or_zero_fixed (my t),
-          to_normal_id_with approx_unit_or_zero_fixed (mz t) with
+    match to_normal_id_with approx_unit_or_zero (mx t), to_normal_id_with approx_unit_or_zero (my t),
+          to_normal_id_with approx_unit_or_zero (mz t) with
     | Some x, Some y, Some z =>
       N.eqb id (6 * x + y + 1) && vec3_ok (mx t) &&
       N.eqb (vx (mx t)) (vx (axis_vec x)) && N.eqb (vy (mx t)) (vy (axis_vec x)) && N.eqb (vz (mx t)) (vz (axis_vec x)) &&
@@ -218,24 +222,24 @@ Definition near_mat (m b : mat3) : Prop :=
   near_vec (my (transpose m)) (my (transpose b)) /\
   near_vec (mz (transpose m)) (mz (transpose b)).
 
-(* With the repaired test a matrix is given the id of a basic rotation only if every entry is within
-   f32::EPSILON of that rotation's entry.  (For the pinned test this is false: snap_scaled_refuted.) *)
-Theorem rotation_snap_only_near_basis_fixed m id b :
-  to_basic_rotation_id_with approx_unit_or_zero_fixed m = Some id ->
+(* A matrix is given the id of a basic rotation only if every entry is within f32::EPSILON of that rotation's
+   entry.  (For the test before the repair this was false: snap_scaled_refuted.) *)
+Theorem rotation_snap_only_near_basis m id b :
+  to_basic_rotation_id m = Some id ->
   from_basic_rotation_id id = Some b ->
   near_mat m b.
 Proof.
-  unfold to_basic_rotation_id_with.
-  destruct (to_normal_id_with approx_unit_or_zero_fixed (mx (transpose m))) as [x|] eqn:Hx; [|discriminate].
-  destruct (to_normal_id_with approx_unit_or_zero_fixed (my (transpose m))) as [y|] eqn:Hy; [|discriminate].
-  destruct (to_normal_id_with approx_unit_or_zero_fixed (mz (transpose m))) as [z|] eqn:Hz; [|discriminate].
+  unfold to_basic_rotation_id, to_basic_rotation_id_with.
+  destruct (to_normal_id_with approx_unit_or_zero (mx (transpose m))) as [x|] eqn:Hx; [|discriminate].
+  destruct (to_normal_id_with approx_unit_or_zero (my (transpose m))) as [y|] eqn:Hy; [|discriminate].
+  destruct (to_normal_id_with approx_unit_or_zero (mz (transpose m))) as [z|] eqn:Hz; [|discriminate].
   cbv zeta. destruct (from_basic_rotation_id (6 * x + y + 1)) as [b'|] eqn:Hb; [|discriminate].
-  destruct (to_normal_id_with approx_unit_or_zero_fixed (mz (transpose b'))) as [z'|] eqn:Hz'; [|discriminate].
+  destruct (to_normal_id_with approx_unit_or_zero (mz (transpose b'))) as [z'|] eqn:Hz'; [|discriminate].
   destruct (N.eqb_spec z' z) as [->|]; [|discriminate]. intros H Hb2. assert (E : 6 * x + y + 1 = id) by congruence. clear H. subst id. rewrite Hb in Hb2. injection Hb2 as <-.
   pose proof (table_columns _ (from_id_some_in _ _ Hb)) as T. unfold table_columns_b in T. rewrite Hb in T. cbv zeta in T.
   rewrite Hz' in T.
-  destruct (to_normal_id_with approx_unit_or_zero_fixed (mx (transpose b'))) as [x'|] eqn:Hx'; [|discriminate].
-  destruct (to_normal_id_with approx_unit_or_zero_fixed (my (transpose b'))) as [y'|] eqn:Hy'; [|discriminate].
+  destruct (to_normal_id_with approx_unit_or_zero (mx (transpose b'))) as [x'|] eqn:Hx'; [|discriminate].
+  destruct (to_normal_id_with approx_unit_or_zero (my (transpose b'))) as [y'|] eqn:Hy'; [|discriminate].
   repeat (apply andb_true_iff in T; destruct T as [T ?]).
   repeat match goal with H : N.eqb _ _ = true |- _ => apply N.eqb_eq in H end.
   destruct (fixed_normal_id_near _ _ Hx) as [Bx Nx]. destruct (fixed_normal_id_near _ _ Hy) as [By Ny].
